@@ -68,6 +68,7 @@ func OpenIndexFromBoltDatabase(db *bbolt.DB, opts ...IndexOption) (*Index, error
 
 	for _, opt := range opts {
 		if err := opt(idx); err != nil {
+			db.Close()
 			return nil, err
 		}
 	}
